@@ -1,19 +1,115 @@
-//! C05: exact LRU model vs live-value registry.
-use crate::log::Outcome;
+//! C05: exact LRU model replayed over the log, compared with the boundary observation
+//! (`LiveSample`: does a result value of lru node n still exist right after a write?).
+
+use std::collections::HashMap;
+
+use crate::log::*;
+use crate::mon;
 use crate::prog::*;
-use crate::single::Runner;
 use crate::util::Counts;
 
-pub struct LruModel {
-    pub counts: Counts,
+pub fn check(prog: &Prog, log: &[Stamped]) -> (Vec<String>, Counts) {
+    let (v, c, _) = replay(prog, log);
+    (v, c)
 }
 
-impl LruModel {
-    pub fn new(_prog: &Prog, _cap: usize) -> Self {
-        LruModel { counts: Counts::default() }
+/// Replays the LRU model; also returns the eviction points (clock, node) where a value was dropped.
+pub fn replay(prog: &Prog, log: &[Stamped]) -> (Vec<String>, Counts, Vec<(u64, u32)>) {
+    let mut evs: Vec<(u64, u32)> = Vec::new();
+    let mut viol = Vec::new();
+    let mut c = Counts::default();
+    let is_lru = |n: u32| prog.nodes.get(n as usize).map(|x| x.kind) == Some(Kind::Lru);
+    // which executions of lru nodes had an untracked read of their own
+    let execs = mon::executions(log);
+    let mut unt_at_exit: HashMap<u64, bool> = HashMap::new();
+    for e in &execs {
+        if e.act.f == FnK::Lru && e.value.is_some() {
+            unt_at_exit.insert(e.end, e.untracked);
+        }
     }
-    pub fn on_request(&mut self, _r: &Runner, _prog: &Prog, _req: &Req, _got: &Outcome) {}
-    pub fn on_write(&mut self, _r: &Runner, _w: &Step) -> Option<String> {
-        None
+    let mut cap: usize = 4;
+    let mut order: Vec<u32> = Vec::new(); // front = least recently requested
+    let mut has_value: HashMap<u32, bool> = HashMap::new();
+    let mut untracked: HashMap<u32, bool> = HashMap::new();
+    let mut pending_top: Option<u32> = None;
+    let mut rev: u64 = 1;
+    let mut evicted_keys: HashMap<u32, bool> = HashMap::new();
+    let mut record_use = |order: &mut Vec<u32>, cap: usize, n: u32| {
+        if cap != 0 {
+            order.retain(|x| *x != n);
+            order.push(n);
+        }
+    };
+    let mut evict = |clk: u64,
+                     evs: &mut Vec<(u64, u32)>,
+                     order: &mut Vec<u32>,
+                     cap: usize,
+                     has_value: &mut HashMap<u32, bool>,
+                     untracked: &HashMap<u32, bool>,
+                     evicted_keys: &mut HashMap<u32, bool>,
+                     c: &mut Counts| {
+        if cap == 0 {
+            return;
+        }
+        if order.len() > cap {
+            c.inc("lru_eviction_points");
+        }
+        while order.len() > cap {
+            let n = order.remove(0);
+            if !untracked.get(&n).copied().unwrap_or(false) {
+                if has_value.get(&n).copied().unwrap_or(false) {
+                    c.inc("lru_evicted");
+                }
+                has_value.insert(n, false);
+                evicted_keys.insert(n, true);
+                evs.push((clk, n));
+            } else {
+                c.inc("lru_untracked_exempt");
+            }
+        }
+    };
+    for (clk, _th, r) in log {
+        match r {
+            Rec::Call(_, Req::Node(n)) if is_lru(*n as u32) => pending_top = Some(*n as u32),
+            Rec::Ret(_, out) => {
+                if let (Some(n), Outcome::Val(_)) = (pending_top.take(), out) {
+                    record_use(&mut order, cap, n);
+                }
+            }
+            Rec::Read(ReadK::Call(FnK::Lru, n, _), _) => record_use(&mut order, cap, *n),
+            Rec::Exit(a, _) if a.f == FnK::Lru => {
+                has_value.insert(a.node, true);
+                untracked.insert(a.node, unt_at_exit.get(clk).copied().unwrap_or(false));
+                if evicted_keys.remove(&a.node).is_some() {
+                    c.inc("lru_evicted_rerequested");
+                }
+            }
+            Rec::SetLru(n) => {
+                cap = *n as usize;
+                c.inc("lru_capacity_changes");
+                if cap == 0 {
+                    order.clear();
+                }
+            }
+            Rec::Evict => evict(*clk, &mut evs, &mut order, cap, &mut has_value, &untracked, &mut evicted_keys, &mut c),
+            Rec::WriteDone(_, r2) => {
+                if *r2 > rev {
+                    rev = *r2;
+                    evict(*clk, &mut evs, &mut order, cap, &mut has_value, &untracked, &mut evicted_keys, &mut c);
+                }
+            }
+            Rec::LiveSample(n, cnt) => {
+                c.inc("lru_samples");
+                let model = has_value.get(n).copied().unwrap_or(false) as i64;
+                if *cnt != model {
+                    viol.push(format!(
+                        "after the write at clock {clk} (rev {rev}, capacity {cap}) lru node n{n} has {cnt} live result value(s), the LRU model says {model}; recency order (least recent first) {order:?}"
+                    ));
+                    return (viol, c, evs);
+                }
+            }
+            _ => {}
+        }
     }
+    (viol, c, evs)
 }
